@@ -1,4 +1,6 @@
 import Mps.Judge
+import MpsProps.C02alg
+import MpsProps.AlgGen
 /-
   C02 — property theorems: the algebra layer (MpsProps/C02alg.lean) is imported here once merged.
 -/
